@@ -9,7 +9,8 @@
  * names the return path that was taken.
  *
  * Line protocol (byte strings in hex, "-" = empty):
- *  J <buf> <key>        json_find(buf, buf+len, key)
+ *  J <buf> <key>        json_find(buf, buf+len, key); the key sits in a block
+ *                       of exactly strlen(key)+1 bytes (cut at a NUL if any)
  *  D <in>               b64decode(in, len, out[(len/4)*3], &outlen)
  *  E <in>               b64encode(in, out[((len+2)/3)*4+1], len)
  *  X <in>               hexify(in, out[2*len+1], len)
@@ -26,6 +27,14 @@
  *  A <bytes|!>          aws_readkeys(file with these bytes | missing file)
  *  F <bytes|!>          readpass_file(file with these bytes | missing file)
  *  T <tbl> <opterr> <argv0> <argv1> ...   getopt loop over a GETOPT_* table
+ *  R <tbl> <opterr> <k> <n1> <argv...>     three-step getopt sequence: the first
+ *                       n1 strings are parsed and the GETOPT loop is LEFT after
+ *                       k option labels (possibly in the middle of a packed
+ *                       group); that argv (strings and vector) is freed;
+ *                       optreset = 1 and the remaining strings are parsed to
+ *                       the end.  A read of the freed argv is a use-after-free
+ *                       for ASan; the second parse must also equal a parse of
+ *                       the same argv after a completed one.
  *
  * argv[1] of the driver = directory for the scratch file of A / F.
  * getaddrinfo is interposed (-Wl,--wrap): anything but a numeric IPv4 literal
@@ -156,9 +165,13 @@ do_json(const uint8_t * in, size_t len, const uint8_t * key, size_t klen)
 {
 	void * fb, * fk;
 	const uint8_t * b = vh_exact(in, len, &fb);
-	char * k = exact_str(key, klen, &fk);
+	char * k;
 	const uint8_t * r;
 
+	/* the key is a C string: its block must end right after its NUL */
+	if (klen && memchr(key, 0, klen) != NULL)
+		klen = (size_t)((const uint8_t *)memchr(key, 0, klen) - key);
+	k = exact_str(key, klen, &fk);
 	r = json_find(b, b + len, k);
 	if ((uintptr_t)r < (uintptr_t)b || (uintptr_t)r > (uintptr_t)(b + len))
 		rbad("json_find returned buf%+lld for a %zu-byte buffer",
@@ -692,17 +705,25 @@ static struct {
 	size_t iters;
 	size_t nflag, narg, nmiss, ndef;
 	int bad;
+	long stop_after;	/* leave the loop after this many labels; -1: never */
+	int midpack;		/* the last call stopped inside a packed group */
+	uint64_t trace;		/* FNV over the labels and optarg positions */
 } G;
 
 #define LONGOPT "--LLLLLLLLLLLLLLLLLLLLLLLLLLLLLLLLLLLLLLLLLLLLLLLLLLLLLLLLLLLLLLLLLLLLLL"
 
 /* A returned option string must be a readable string. */
 static void
-got_ch(const char * ch)
+got_ch(const char * ch, int optind_before)
 {
 
-	(void)strlen(ch);
+	G.trace = vh_fnv(G.trace, (const uint8_t *)ch, strlen(ch) + 1);
 	G.iters++;
+	/*
+	 * Every path of getopt that returns a label moves optind on, except a
+	 * packed group which still has characters left.
+	 */
+	G.midpack = (ch != GETOPT_DUMMY && optind == optind_before);
 }
 
 /* optarg must point into one of the argv strings. */
@@ -729,16 +750,28 @@ got_arg(const char * a)
 		rbad("optarg points outside argv[0..argc-1]");
 		return;
 	}
+	{
+		uint64_t pos[2];
+
+		pos[0] = (uint64_t)i;
+		pos[1] = (uint64_t)((uintptr_t)a - (uintptr_t)G.argv[i]);
+		G.trace = vh_fnv(G.trace, (const uint8_t *)pos, sizeof(pos));
+	}
 	(void)strlen(a);
 }
+
+/* After the GETOPT_SWITCH of one iteration: is the loop to be abandoned? */
+#define ABANDON_HERE							\
+	(G.stop_after >= 0 && G.iters > (size_t)G.stop_after)
 
 static void
 getopt_loop0(void)
 {
 	const char * ch;
+	int before;
 
-	while ((ch = GETOPT(G.argc, G.argv)) != NULL) {
-		got_ch(ch);
+	while ((before = optind, ch = GETOPT(G.argc, G.argv)) != NULL) {
+		got_ch(ch, before);
 		if (G.iters > G.budget || G.bad)
 			return;
 		GETOPT_SWITCH(ch) {
@@ -766,6 +799,9 @@ getopt_loop0(void)
 			G.ndef++;
 			break;
 		}
+		/* iteration 1 is the dummy call, so k labels = k + 1 iterations */
+		if (ABANDON_HERE)
+			return;
 	}
 }
 
@@ -773,9 +809,10 @@ static void
 getopt_loop1(void)
 {
 	const char * ch;
+	int before;
 
-	while ((ch = GETOPT(G.argc, G.argv)) != NULL) {
-		got_ch(ch);
+	while ((before = optind, ch = GETOPT(G.argc, G.argv)) != NULL) {
+		got_ch(ch, before);
 		if (G.iters > G.budget || G.bad)
 			return;
 		GETOPT_SWITCH(ch) {
@@ -806,48 +843,160 @@ getopt_loop1(void)
 			G.ndef++;
 			break;
 		}
+		/* iteration 1 is the dummy call, so k labels = k + 1 iterations */
+		if (ABANDON_HERE)
+			return;
 	}
 }
 
+/* An argument vector: every string and the vector itself exact-size. */
+struct avset {
+	size_t argc;
+	char ** av;
+	void * fv;
+	void ** fstr;
+	size_t total;
+};
+
 /* strs[i] / lens[i]: the argc argument strings. */
 static void
-do_getopt(int tbl, int err, size_t argc, uint8_t ** strs, size_t * lens)
+av_make(struct avset * A, size_t argc, uint8_t ** strs, size_t * lens)
 {
-	void * fv;
-	void ** fstr = vh_xmalloc((argc + 1) * sizeof(void *));
-	char ** av = (char **)vh_exact(NULL, (argc + 1) * sizeof(char *), &fv);
-	size_t i, total = 0;
+	size_t i;
 
+	A->argc = argc;
+	A->fstr = vh_xmalloc((argc + 1) * sizeof(void *));
+	A->av = (char **)vh_exact(NULL, (argc + 1) * sizeof(char *), &A->fv);
+	A->total = 0;
 	for (i = 0; i < argc; i++) {
-		av[i] = exact_str(strs[i], lens[i], &fstr[i]);
-		total += strlen(av[i]);
+		A->av[i] = exact_str(strs[i], lens[i], &A->fstr[i]);
+		A->total += strlen(A->av[i]);
 	}
-	av[argc] = NULL;
+	A->av[argc] = NULL;
+}
+
+static void
+av_free(struct avset * A)
+{
+	size_t i;
+
+	for (i = 0; i < A->argc; i++)
+		free(A->fstr[i]);
+	free(A->fv);
+	vh_free(A->fstr);
+}
+
+/* One GETOPT loop after optreset = 1; left after stop_after labels if >= 0. */
+static void
+go_parse(int tbl, int err, struct avset * A, long stop_after)
+{
+
 	memset(&G, 0, sizeof(G));
-	G.argc = (int)argc;
-	G.argv = av;
+	G.argc = (int)A->argc;
+	G.argv = A->av;
 	/* the dummy call + one call per character or argument at most */
-	G.budget = total + argc + 4;
+	G.budget = A->total + A->argc + 4;
+	G.stop_after = stop_after;
 	optreset = 1;
 	opterr = err;
 	if (tbl == 0)
 		getopt_loop0();
 	else
 		getopt_loop1();
-	if (!isbad()) {
-		if (G.iters > G.budget)
-			rbad("getopt: %zu calls without reaching the end of %zu "
-			    "arguments (%zu bytes)", G.iters, argc, total);
-		else if (optind < 1 || (optind > (int)argc && optind != 1))
-			rbad("getopt: optind %d with argc %zu", optind, argc);
-		else
-			rp("it=%zu optind=%d flag=%zu arg=%zu miss=%zu def=%zu",
-			    G.iters, optind, G.nflag, G.narg, G.nmiss, G.ndef);
+}
+
+/* Documented range of what a loop left behind; 1 (and a BAD answer) if not. */
+static int
+go_check(struct avset * A)
+{
+
+	if (isbad())
+		return (1);
+	if (G.iters > G.budget) {
+		rbad("getopt: %zu calls without reaching the end of %zu "
+		    "arguments (%zu bytes)", G.iters, A->argc, A->total);
+		return (1);
 	}
-	for (i = 0; i < argc; i++)
-		free(fstr[i]);
-	free(fv);
-	vh_free(fstr);
+	if (optind < 1 || (optind > (int)A->argc && optind != 1)) {
+		rbad("getopt: optind %d with argc %zu", optind, A->argc);
+		return (1);
+	}
+	return (0);
+}
+
+static void
+do_getopt(int tbl, int err, size_t argc, uint8_t ** strs, size_t * lens)
+{
+	struct avset A;
+
+	av_make(&A, argc, strs, lens);
+	go_parse(tbl, err, &A, -1);
+	if (go_check(&A) == 0)
+		rp("it=%zu optind=%d flag=%zu arg=%zu miss=%zu def=%zu",
+		    G.iters, optind, G.nflag, G.narg, G.nmiss, G.ndef);
+	av_free(&A);
+}
+
+/*
+ * Abandoned parse, argv released, optreset, second parse.  strs[0..n1-1] is
+ * the first command line, strs[n1..argc-1] the second.
+ */
+static void
+do_getopt_seq(int tbl, int err, long k, size_t n1, size_t argc,
+    uint8_t ** strs, size_t * lens)
+{
+	struct avset A, B;
+	size_t it1, it2, fl, ar, mi, de;
+	uint64_t tr;
+	int mid, oi;
+
+	if (n1 > argc)
+		n1 = argc;
+
+	/* 1. the first command line, left after k labels */
+	av_make(&A, n1, strs, lens);
+	go_parse(tbl, err, &A, k);
+	mid = G.midpack;
+	it1 = G.iters;
+	if (go_check(&A)) {
+		av_free(&A);
+		return;
+	}
+
+	/* 2. it goes away */
+	av_free(&A);
+
+	/* 3. another command line after optreset */
+	av_make(&B, argc - n1, strs + n1, lens + n1);
+	go_parse(tbl, err, &B, -1);
+	if (go_check(&B)) {
+		av_free(&B);
+		return;
+	}
+	it2 = G.iters;
+	oi = optind;
+	fl = G.nflag;
+	ar = G.narg;
+	mi = G.nmiss;
+	de = G.ndef;
+	tr = G.trace;
+
+	/* reference: the same command line after a parse which ran to its end */
+	go_parse(tbl, err, &B, -1);
+	if (go_check(&B) == 0) {
+		if (G.iters != it2 || optind != oi || G.nflag != fl ||
+		    G.narg != ar || G.nmiss != mi || G.ndef != de ||
+		    G.trace != tr)
+			rbad("getopt after optreset depends on the abandoned parse: "
+			    "it=%zu optind=%d flag=%zu arg=%zu miss=%zu def=%zu, "
+			    "after a completed parse it=%zu optind=%d flag=%zu "
+			    "arg=%zu miss=%zu def=%zu", it2, oi, fl, ar, mi, de,
+			    G.iters, optind, G.nflag, G.narg, G.nmiss, G.ndef);
+		else
+			rp("it=%zu optind=%d flag=%zu arg=%zu miss=%zu def=%zu "
+			    "it1=%zu mid=%d", it2, oi, fl, ar, mi, de, it1, mid);
+	}
+	av_free(&B);
 }
 
 /* ---- one protocol line ---- */
@@ -939,6 +1088,26 @@ run_line(struct vh_line * L)
 		for (i = 0; i < argc; i++)
 			strs[i] = vh_tok_hex(L, 3 + i, &lens[i]);
 		do_getopt((int)vh_tok_u(L, 1), (int)vh_tok_u(L, 2), argc, strs, lens);
+		for (i = 0; i < argc; i++)
+			vh_free(strs[i]);
+		vh_free(strs);
+		vh_free(lens);
+		break;
+	}
+	case 'R': {
+		size_t argc, i;
+		uint8_t ** strs;
+		size_t * lens;
+
+		if (L->ntok < 5)
+			vh_die("R needs a table, opterr, k and n1");
+		argc = L->ntok - 5;
+		strs = vh_xmalloc((argc + 1) * sizeof(uint8_t *));
+		lens = vh_xmalloc((argc + 1) * sizeof(size_t));
+		for (i = 0; i < argc; i++)
+			strs[i] = vh_tok_hex(L, 5 + i, &lens[i]);
+		do_getopt_seq((int)vh_tok_u(L, 1), (int)vh_tok_u(L, 2),
+		    (long)vh_tok_u(L, 3), (size_t)vh_tok_u(L, 4), argc, strs, lens);
 		for (i = 0; i < argc; i++)
 			vh_free(strs[i]);
 		vh_free(strs);
